@@ -2,6 +2,7 @@ package net
 
 import (
 	"fmt"
+	"net"
 	"sync"
 	"sync/atomic"
 	"time"
@@ -472,6 +473,101 @@ func C20(c *runner.Cfg) *report.Result {
 			}
 			res.Nontrivial(uint64(tag))
 		}, nil)
+	}
+	// a peer that stops reading while a handler keeps sending: the server's writer ends up blocked in
+	// the socket. The peer then ends its direction (half-close) or sends an unparseable frame, keeping
+	// the socket open: the connection is lost for the server, so the handler's context must be
+	// cancelled, its blocked Send must return, and the close/disconnect listeners must run once.
+	if !c.Abort.Load() {
+		type bw struct {
+			sent       atomic.Int64
+			ctxDone    atomic.Bool
+			sendReturn atomic.Bool
+			onClosed   atomic.Int32
+			onDisc     atomic.Int32
+			registered atomic.Int32
+			exited     atomic.Bool
+		}
+		var states sync.Map // tag -> *bw
+		blob := make([]byte, 256<<10)
+		bh := mpx.HandleFunc(func(ctx mpx.Context, ch mpx.Channel) status.Status {
+			b, st := ch.Receive(ctx)
+			if !st.OK() {
+				return status.OK
+			}
+			id, _, _, _, full := netx.Describe(b)
+			v, ok := states.Load(id)
+			if !full || !ok {
+				return status.OK
+			}
+			w := v.(*bw)
+			defer w.exited.Store(true)
+			if _, ok := ch.Conn().OnClosed(func() { w.onClosed.Add(1) }); ok {
+				w.registered.Add(1)
+			}
+			if _, ok := ctx.Conn().OnDisconnected(func() { w.onDisc.Add(1) }); ok {
+				w.registered.Add(1)
+			}
+			go func() { <-ctx.Wait(); w.ctxDone.Store(true) }()
+			for {
+				if st := ch.Send(noCtx, blob); !st.OK() { // not the channel context: only the connection can end this
+					w.sendReturn.Store(true)
+					return status.OK
+				}
+				w.sent.Add(1)
+			}
+		})
+		bsrv, baddr, err := StartServer(bh, logger, Opts(0, 0, 0, 0, false))
+		if err == nil {
+			defer StopServer(bsrv)
+			c.Cases("C20/blocked-writer", c.N(4, 40), func(idx int, _ *journal.Slot) {
+				res.Eval(1)
+				tag := uint32(3<<20 + idx)
+				w := &bw{}
+				states.Store(tag, w)
+				defer states.Delete(tag)
+				peer, err := netx.DialPeer(baddr)
+				if err != nil {
+					return
+				}
+				defer peer.Close()
+				if peer.ClientHandshake() != nil {
+					return
+				}
+				// a window the handler never exhausts: only the socket stops it
+				peer.WriteFrame(netx.MsgOpen(netx.NewID(uint64(tag), 1), netx.MakePayload(tag, 0, 0, 40), 1<<30))
+				Settle(20*time.Second, func() bool {
+					a := w.sent.Load()
+					time.Sleep(200 * time.Millisecond)
+					return a > 0 && w.sent.Load() == a
+				})
+				how := "half-close"
+				if idx%2 == 1 {
+					how = "unparseable frame"
+					peer.WriteRaw(netx.Frame([]byte("this is not a message")))
+				} else if tc, ok := peer.C.(*net.TCPConn); ok {
+					tc.CloseWrite()
+				}
+				wit := map[string]any{"stream": "C20/blocked-writer", "index": idx, "peer_ends_with": how, "bytes_pushed_before": w.sent.Load() * int64(len(blob))}
+				ok := Settle(Watchdog, func() bool {
+					return w.ctxDone.Load() && w.sendReturn.Load() && w.exited.Load() && w.onClosed.Load()+w.onDisc.Load() >= w.registered.Load()
+				})
+				if !ok {
+					c.Abort.Store(true)
+					wit["context_cancelled"], wit["blocked_send_returned"], wit["handler_exited"] = w.ctxDone.Load(), w.sendReturn.Load(), w.exited.Load()
+					wit["listeners_registered"], wit["on_closed_calls"], wit["on_disconnected_calls"] = w.registered.Load(), w.onClosed.Load(), w.onDisc.Load()
+					wit["goroutines"] = Goroutines(8)
+					res.Violate("c20:blocked-writer:connection-loss-not-delivered", fmt.Sprintf("the peer stopped reading and then ended the connection (%s) while the server's writer was blocked in the socket: %v later the handler context / blocked Send / listeners have still not been released", how, Watchdog), wit)
+					return
+				}
+				if w.onClosed.Load() > 1 || w.onDisc.Load() > 1 {
+					res.Violate("c20:listener-called-twice", fmt.Sprintf("blocked writer: OnClosed called %d times, OnDisconnected %d times", w.onClosed.Load(), w.onDisc.Load()), wit)
+					return
+				}
+				res.Nontrivial(uint64(tag))
+				res.Count("blocked_writer_bytes_pushed", w.sent.Load()*int64(len(blob)))
+			}, nil)
+		}
 	}
 	res.Observe("hook_hits", hooks.Hits())
 	fk, fd := hooks.Failures()
